@@ -203,7 +203,24 @@ def parse_held(s):
     return d
 
 
+class HarnessSpin(Exception):
+    """raised by the harness when the raw stream keeps answering 0 to the same offer (BufferedWriter would spin)"""
+
+
+def parse_mode(mode):
+    """'b<bs>' or 'b<bs>c<k>' → (buffer size, chunk size or None); 'r<k>' → (0, k)"""
+    if mode[0] == "r" and mode != "raw":
+        return 0, int(mode[1:])
+    body = mode[1:]
+    if "c" in body:
+        bs, k = body.split("c")
+        return int(bs), int(k)
+    return int(body), None
+
+
 def err_name(e):
+    if isinstance(e, HarnessSpin):
+        return "err spin"
     if isinstance(e, SdoAbortedError):
         return f"err aborted {e.code}"
     if isinstance(e, SdoCommunicationError):
@@ -230,9 +247,13 @@ def do_download(client, idx, sub, data, sized, force, offers, mode, record=None)
             rem = rem[n:]
         fp.close()
         return
-    bs = int(mode[1:])
+    bs, k = parse_mode(mode)
     with client.open(idx, sub, "wb", buffering=bs, size=size, force_segment=force) as fp:
-        fp.write(data)
+        if k is None:
+            fp.write(data)
+        else:
+            for i in range(0, len(data), k):
+                fp.write(data[i:i + k])
 
 
 def do_upload(client, idx, sub, mode):
@@ -250,8 +271,28 @@ def do_upload(client, idx, sub, mode):
             out += d
         fp.close()
         return out
-    with client.open(idx, sub, "rb", buffering=int(mode[1:])) as fp:
-        return fp.read()
+    bs, k = parse_mode(mode)
+    if bs == 0:
+        # unbuffered, read(k): the size argument is documented as ignored (one segment per call)
+        fp = client.open(idx, sub, "rb", buffering=0)
+        out = b""
+        while True:
+            d = fp.read(k)
+            if not d:
+                break
+            out += d
+        fp.close()
+        return out
+    with client.open(idx, sub, "rb", buffering=bs) as fp:
+        if k is None:
+            return fp.read()
+        out = b""
+        while True:
+            d = fp.read(k)
+            if not d:
+                break
+            out += d
+        return out
 
 
 def run_seq(held, style, mode, xfers, wrap=None, record_offers=None):
@@ -264,11 +305,17 @@ def run_seq(held, style, mode, xfers, wrap=None, record_offers=None):
     results = []
     orig = WritableStream.write
     seen = []
-    if record_offers is not None:
-        def rec(self, b):
-            seen.append(len(b))
-            return orig(self, b)
-        WritableStream.write = rec
+    zeros = [0]
+
+    def rec(self, b):
+        seen.append(len(b))
+        n = orig(self, b)
+        zeros[0] = zeros[0] + 1 if n == 0 and len(b) else 0
+        if zeros[0] > 12:
+            zeros[0] = 0
+            raise HarnessSpin()
+        return n
+    WritableStream.write = rec
     try:
         for x in xfers:
             del seen[:]
@@ -310,6 +357,22 @@ def run_impl(op):
     return f"{';'.join(results)} | {show_frames(bus.requests)} | {show_frames(bus.responses)} | {commits} | {ill}"
 
 
+def model_skips(op):
+    """an operation on which the implementation never terminates (the harness cut a spinning BufferedWriter short)
+    has no result to compare; the oracle alone reports it"""
+    a = op.split(" ")
+    if a[0] != "seq" or a[6][0] != "b" or "c" not in a[6]:
+        return False
+    for x in a[7].split(";"):
+        p = x.split(":")
+        if p[0] == "d" and p[4] == "1":
+            n = len(p[3]) // 2 if p[3] != "-" else 0
+            offers = c04.unnl(p[6])
+            if 2 <= n <= 4 and len(offers) > 12 and all(o < n for o in offers):
+                return True
+    return False
+
+
 # ---------------------------------------------------------------------- independent oracle
 NUMERIC_BYTES = {**{t: w // 8 for t, (w, _) in c04.SPEC.items()}, 0x01: 1, 0x08: 4, 0x11: 8}
 
@@ -329,6 +392,12 @@ def oracle(op, out):
     exp_commits = []
     for x, r in zip(xfers, results):
         if x[0] == "d":
+            if r == "err spin":
+                bs, k = parse_mode(mode)
+                return (f"spin:expedited-declared-size-in-pieces download of {len(x[3])} byte(s) with declared size, "
+                        f"written in pieces of {k} through BufferedWriter({bs}): WritableStream.write answers 0 "
+                        f"to every offer shorter than the declared size, the buffered writer never gets rid of its "
+                        f"{bs} byte(s) and spins forever")
             if r != "ok":
                 return f"download of {len(x[3])} byte(s) to a conformant server failed: {r}"
             held[(x[1], x[2])] = x[3]
@@ -344,6 +413,11 @@ def oracle(op, out):
                 if mode == "api" and t not in ("x", "n") and int(t) in NUMERIC_BYTES:
                     data = data[:NUMERIC_BYTES[int(t)]]
                 exp = "ok " + c04.hx(data)
+            if r == "err other" and mode[0] == "b" and parse_mode(mode)[0] < 7 and parse_mode(mode)[1] is not None:
+                bs, k = parse_mode(mode)
+                return (f"bufread:buffer-smaller-than-segment upload of {len(data)} byte(s) read {k} at a time "
+                        f"through BufferedReader({bs}) raised: ReadableStream.readinto hands a whole 7-byte segment "
+                        f"to a {bs}-byte buffer (ValueError)")
             if r != exp:
                 return f"upload returned {r}, the server holds {exp}"
     got = parts[3]
@@ -353,6 +427,8 @@ def oracle(op, out):
 
 
 def signature(op, what):
+    if what.startswith(("spin:", "bufread:")):
+        return what.split(" ")[0]
     if "illegal request" in what:
         return "illegal-frame:" + what.split(": ", 1)[1].split(":")[0]
     return what.split(" ")[0]
@@ -385,6 +461,8 @@ def shrink_candidates(op):
 
 # ---------------------------------------------------------------------- generators
 MODES = ["raw", "b2", "b7", "b8", "b1024", "api"]
+CHUNKED_W = ["b2c1", "b3c1", "b3c2", "b4c3", "b7c3", "b8c5", "b1024c4"]        # BufferedWriter(bs), write(k bytes) …
+CHUNKED_R = ["r1", "r3", "r9", "b2c1", "b3c2", "b5c3", "b7c3", "b8c5", "b1024c4", "b7c100"]   # read(k) …
 MUXES = [(0x2000, 0), (0x1018, 1), (0xFFFF, 255), (0x0001, 0), (0x6040, 0), (0x1000, 0)]
 ODTYPES = ["x", "n"] + [str(t) for t in sorted(c04.SPEC)] + ["1", "8", "17", "9", "10", "11", "15", "12", "32"]
 
@@ -431,7 +509,9 @@ def gen_ops(tier, rng):
                 for offers in chs:
                     yield finish_op("-", default_style, "raw", [dl_token(idx, sub, data, sized, force, offers)])
                 modes = MODES[1:] if (n <= 16 or tier == "thorough") else rng.sample(MODES[1:], 2)
-                for mode in modes:
+                # the same payload handed to a buffered writer in pieces (every split x buffering mode)
+                cmodes = CHUNKED_W if (n <= 8 or tier == "thorough") else rng.sample(CHUNKED_W, 2)
+                for mode in modes + (cmodes if n else []):
                     yield finish_op("-", default_style, mode, [dl_token(idx, sub, data, sized, force, [])])
     # uploads: every length x style x cuts x dictionary type
     for n in lens:
@@ -445,7 +525,7 @@ def gen_ops(tier, rng):
             for cuts in ([], [1] * (n + 1), [rng.randint(1, 7) for _ in range(n + 1)]):
                 if len(cuts) > 200:
                     cuts = cuts[:200]
-                mode = rng.choice(["api", "api", "raw", "b7", "b1024"])
+                mode = rng.choice(["api", "api", "raw", "b7", "b1024"] + CHUNKED_R)
                 t = rng.choice(ODTYPES) if mode == "api" else "x"
                 yield finish_op(held, (si, ex, es, cuts), mode, [f"u:{idx}:{sub}:{t}"])
         if n <= 16:
